@@ -552,6 +552,9 @@ def generate_richardson_integrator(basis_integrator, richardson_iter=2):
             return timestep, (timestep, self.stage_values[m - 1, n - 1]), self.stage_values[m - 1, m - 1] - self.stage_values[m, m]
 
         def __call__(self, rhs, initial_time, initial_state, constants, timestep):
+            # the scale the tolerances refer to is that of the current step: carried over as a running average of earlier steps it
+            # lags behind a decaying solution and the error is weighed against a tolerance that is orders of magnitude too large
+            self.solver_dict.pop("system_scaling", None)
             dt0, (dt_z, dy_z), diff = self.adaptive_richardson(rhs, initial_time, initial_state, constants, timestep)
 
             self.dState = dy_z + 0.0
